@@ -4,6 +4,7 @@
 //!
 //!   vharness <slice> --seed N --n CASES --len MAXLEN --out trace.txt [--shard i/m] [--bfs DEPTH]
 mod alloc;
+mod comp;
 mod gen;
 mod lru;
 mod prng;
@@ -117,6 +118,104 @@ fn slice_lru(a: &Args, t: &mut Trace) {
     }
 }
 
+pub fn mk_slru(pc: usize, fc: usize, hmode: u64) -> Box<dyn Subject> {
+    let c = caches::SegmentedCacheBuilder::new(pc, fc)
+        .set_probationary_hasher(VHasher::from_mode(hmode))
+        .set_protected_hasher(VHasher::from_mode(hmode + 1))
+        .finalize::<TKey, TVal>()
+        .unwrap();
+    Box::new(comp::SlruSubj { c })
+}
+
+/// 2Q through the builder; `rr`/`gr` are the ratios as f64 bit patterns
+pub fn mk_twoq(size: usize, rr: f64, gr: f64, hmode: u64) -> Box<dyn Subject> {
+    let c = caches::TwoQueueCacheBuilder::new(size)
+        .set_recent_ratio(rr)
+        .set_ghost_ratio(gr)
+        .set_recent_hasher(VHasher::from_mode(hmode))
+        .set_frequent_hasher(VHasher::from_mode(hmode + 1))
+        .set_ghost_hasher(VHasher::from_mode(hmode + 2))
+        .finalize::<TKey, TVal>()
+        .unwrap();
+    Box::new(comp::TwoQSubj { c })
+}
+
+pub fn mk_arc(size: usize, hmode: u64) -> Box<dyn Subject> {
+    let c = caches::AdaptiveCacheBuilder::new(size)
+        .set_recent_hasher(VHasher::from_mode(hmode))
+        .set_recent_evict_hasher(VHasher::from_mode(hmode + 1))
+        .set_frequent_hasher(VHasher::from_mode(hmode + 2))
+        .set_frequent_evict_hasher(VHasher::from_mode(hmode + 3))
+        .finalize::<TKey, TVal>()
+        .unwrap();
+    Box::new(comp::ArcSubj { c })
+}
+
+const RATIOS: [f64; 7] = [0.0, 0.25, 0.5, 1.0, 1.0 / 3.0, 0.75, 0.1];
+
+/// sub-sizes of a 2Q cache as the constructor computes them (floor(size * ratio))
+pub fn twoq_quotas(size: usize, rr: f64, gr: f64) -> (usize, usize) {
+    (((size as f64) * rr).floor() as usize, ((size as f64) * gr).floor() as usize)
+}
+
+fn slice_comp(a: &Args, t: &mut Trace, which: u32) {
+    for i in 0..a.n {
+        if i % a.shard.1 != a.shard.0 {
+            continue;
+        }
+        let mut r = rng_for(a.seed, i + 1_000_000 * which as u64);
+        let hmode = r.below(5);
+        let len = r.range(a.len / 4 + 1, a.len) as usize;
+        let mut vg = gen::ValGen(1000);
+        match which {
+            1 => {
+                let pc = if r.chance(1, 30) { 20 } else { r.range(1, 4) };
+                let fc = if r.chance(1, 30) { 20 } else { r.range(1, 4) };
+                let mut kg = gen::KeyGen::new(pc + fc + 3);
+                let cfg = [pc as i128, fc as i128];
+                let id = format!("slru-s{}-i{}", a.seed, i);
+                let meta = format!("hasher={}", hmode);
+                run_case(t, &id, 1, &cfg, &meta, &|| mk_slru(pc as usize, fc as usize, hmode),
+                    &mut |step, snap| if step >= len { None } else { Some(gen::slru_op(&mut r, &mut kg, &mut vg, snap)) },
+                    &tag);
+            }
+            2 => {
+                let size = if r.chance(1, 30) { 64 } else { r.range(1, 8) } as usize;
+                // pick ratios for which construction succeeds (ghost quota >= 1)
+                let mut rri = r.below(RATIOS.len() as u64) as usize;
+                let mut gri = r.below(RATIOS.len() as u64) as usize;
+                let mut tries = 0;
+                while twoq_quotas(size, RATIOS[rri], RATIOS[gri]).1 == 0 {
+                    gri = (gri + 1) % RATIOS.len();
+                    tries += 1;
+                    if tries > RATIOS.len() {
+                        rri = 0;
+                        gri = 3;
+                    }
+                }
+                let (rs, es) = twoq_quotas(size, RATIOS[rri], RATIOS[gri]);
+                let mut kg = gen::KeyGen::new(size as u64 + es as u64 + 3);
+                let cfg = [size as i128, rs as i128, es as i128];
+                let id = format!("twoq-s{}-i{}", a.seed, i);
+                let meta = format!("hasher={} rri={} gri={}", hmode, rri, gri);
+                run_case(t, &id, 2, &cfg, &meta, &|| mk_twoq(size, RATIOS[rri], RATIOS[gri], hmode),
+                    &mut |step, snap| if step >= len { None } else { Some(gen::twoq_op(&mut r, &mut kg, &mut vg, snap)) },
+                    &tag);
+            }
+            _ => {
+                let size = if r.chance(1, 30) { 32 } else { r.range(1, 6) } as usize;
+                let mut kg = gen::KeyGen::new(2 * size as u64 + 3);
+                let cfg = [size as i128];
+                let id = format!("arc-s{}-i{}", a.seed, i);
+                let meta = format!("hasher={}", hmode);
+                run_case(t, &id, 3, &cfg, &meta, &|| mk_arc(size, hmode),
+                    &mut |step, snap| if step >= len { None } else { Some(gen::arc_op(&mut r, &mut kg, &mut vg, snap)) },
+                    &tag);
+            }
+        }
+    }
+}
+
 /// exhaustive closure of small RawLRU configurations (caps 1..=a.n)
 fn slice_lru_bfs(a: &Args, t: &mut Trace) {
     for cap in 1..=a.n {
@@ -189,6 +288,20 @@ pub fn mk_subject(kind: u32, cfg: &[i128], meta: &std::collections::HashMap<Stri
             let ctor = if meta.contains_key("ctor") { m("ctor") } else if cfg[1] != 0 { 3 } else { 1 };
             mk_lru(cfg[0] as usize, ctor, m("hasher"))
         }
+        1 => mk_slru(cfg[0] as usize, cfg[1] as usize, m("hasher")),
+        2 => {
+            // find ratios that give the recorded quotas
+            let size = cfg[0] as usize;
+            if meta.contains_key("rri") {
+                return mk_twoq(size, RATIOS[m("rri") as usize], RATIOS[m("gri") as usize], m("hasher"));
+            }
+            let rr = (cfg[1] as f64 + 0.5) / size as f64;
+            let gr = (cfg[2] as f64 + 0.5) / size as f64;
+            let (rr, gr) = (rr.min(1.0), gr.min(1.0));
+            assert_eq!(twoq_quotas(size, rr, gr), (cfg[1] as usize, cfg[2] as usize));
+            mk_twoq(size, rr, gr, m("hasher"))
+        }
+        3 => mk_arc(cfg[0] as usize, m("hasher")),
         _ => panic!("unknown kind"),
     }
 }
@@ -284,6 +397,9 @@ fn main() {
     let mut t = Trace::create(&a.out);
     match a.slice.as_str() {
         "lru" => slice_lru(&a, &mut t),
+        "slru" => slice_comp(&a, &mut t, 1),
+        "twoq" => slice_comp(&a, &mut t, 2),
+        "arc" => slice_comp(&a, &mut t, 3),
         "replay" => slice_replay(&a, &mut t),
         "lru_bfs" => slice_lru_bfs(&a, &mut t),
         s => {
